@@ -111,6 +111,8 @@ func genValidCfgOpt(t *rapid.T, o cfgOpts) Cfg {
 	if o.tinyOK && !secureOnly && c.TolPSL && chance(t, "tinyorigins", 35) {
 		if chance(t, "longorigins", 20) {
 			c.Origins = patStrings(genLongPatList(t)) // hosts up to 253 bytes + dot, 64-byte schemes, 5-digit ports
+		} else if chance(t, "wideorigins", 8) {
+			c.Origins = patStrings(genWidePatList(t)) // 9-260 patterns around one base host
 		} else {
 			c.Origins = patStrings(genPatList(t))
 		}
@@ -154,7 +156,19 @@ func genValidCfgOpt(t *rapid.T, o cfgOpts) Cfg {
 			c.RequestHeaders = append(c.RequestHeaders, Str(fmt.Sprintf("X-Many-%03d", (i*37)%n)))
 		}
 	}
+	if chance(t, "manymethods", 3) {
+		n := pick(t, "nmanym", []int{9, 16, 17, 33, 64, 65, 130})
+		for i := 0; i < n; i++ {
+			c.Methods = append(c.Methods, Str(fmt.Sprintf("MANY-%03d", (i*29)%n)))
+		}
+	}
 	nr := listLen(t, "nreshdrs", 0, 3)
+	if chance(t, "manyreshdrs", 3) {
+		n := pick(t, "nmanyr", []int{9, 16, 17, 33, 64, 65, 130})
+		for i := 0; i < n; i++ {
+			c.ResponseHeaders = append(c.ResponseHeaders, Str(fmt.Sprintf("X-Exp-%03d", (i*31)%n)))
+		}
+	}
 	for i := 0; i < nr; i++ {
 		c.ResponseHeaders = append(c.ResponseHeaders, Str(pick(t, "reshdr", resHdrAtoms)))
 	}
